@@ -15,7 +15,7 @@ RULE = {"C09": "generated owner classes with 1-6 tunables (defaults of every sup
                ">=2 tunables and >=1 NetworkTables-side write observed from python and >=1 python write observed from "
                "NetworkTables; distinct = hash of (definition, history)."}
 RULE["C09"] += '  Also: owners that are StateMachines or falsy objects, hints on a base class, inherited and redefined tunables, nearly-equal pre-existing struct values (compared by field), a second object bound under a used name.'
-REQUIRED = {"C09": {"instances-that-compare-equal": 100, "spelling:name-colon-tunable-of-T": 50, "tunables-on-a-base-robot-class": 10, "new-object-bound-under-a-new-name": 50, "new-object-at-the-address-of-the-collected-one": 5, "pre-existing-value-published-with-setDefault": 20, "falsy-owner": 100, "type-hint-on-base-class": 20, "writeDefault-true-overwrites-nearly-equal-struct": 10, "type:boolean": 50, "type:int": 50, "type:double": 50, "type:string": 50, "type:raw": 20, "type:struct:Rotation2d": 20,
+REQUIRED = {"C09": {"hundreds-of-objects-bound-under-one-name": 3, "struct-tunable-advanced-by-a-tiny-step": 20, "instances-that-compare-equal": 100, "spelling:name-colon-tunable-of-T": 50, "tunables-on-a-base-robot-class": 10, "new-object-bound-under-a-new-name": 50, "new-object-at-the-address-of-the-collected-one": 5, "pre-existing-value-published-with-setDefault": 20, "falsy-owner": 100, "type-hint-on-base-class": 20, "writeDefault-true-overwrites-nearly-equal-struct": 10, "type:boolean": 50, "type:int": 50, "type:double": 50, "type:string": 50, "type:raw": 20, "type:struct:Rotation2d": 20,
                     "type:boolean[]": 20, "type:int[]": 20, "type:double[]": 20, "type:string[]": 20, "type:struct:Rotation2d[]": 10,
                     "empty-hinted": 30, "writeDefault-true-overwrites": 50, "writeDefault-false-preserves": 50, "writeDefault-false-preserves-falsy": 10, "subtable": 100, "redefines-inherited-tunable": 30, "base-class-instance-bound-first": 30, "statemachine-owner": 50, "negative-duration-value": 30,
                     "rebound-under-used-name": 50,
@@ -131,6 +131,11 @@ def gen_case(rng, uid):
         owner = "direct"
         instances = [{"name": f"o{i}{uid}", "prefix": rng.choice(["components", "components", "autonomous", None])}
                      for i in range(rng.choice([1, 2, 2, 3]))]
+        if len(instances) >= 2 and rng.random() < 0.25:
+            # module1 / module10 / module11: one name is a prefix of the others, all in one table
+            pf = rng.choice(["components", None])
+            for i_, inst_ in enumerate(instances):
+                inst_["name"], inst_["prefix"] = f"m{uid}{['1', '10', '11'][i_]}", pf
     ops = []
     counter = 1
     for _ in range(rng.choice([10, 30, 80])):
@@ -161,6 +166,8 @@ def gen_case(rng, uid):
         case["rebind"] = True
     if rng.random() < 0.3 and owner == "direct":
         case["fresh_after_gc"] = True
+    if rng.random() < 0.02 and owner == "direct":
+        case["rebind_many"] = True
     return case
 
 
@@ -460,6 +467,11 @@ def _run_case(acc, case):
                 continue
             if k == "py_write":
                 v = value_of(t["kind"], op[3])
+                if t["kind"] == "rot" and op[3] % 3 == 0 and hasattr(reg.get((ii, ti)), "radians"):
+                    # a struct value advanced by a step far below the struct's own == tolerance (an integrating controller)
+                    from wpimath.geometry import Rotation2d as _R
+                    v = _R(reg[(ii, ti)].radians() + 3e-10)
+                    acc.ev("struct-tunable-advanced-by-a-tiny-step")
                 setattr(objs[ii], t["attr"], tuple(v) if (t["as_tuple"] and isinstance(v, list)) else v)
                 reg[(ii, ti)] = v
                 last_writer[(ii, ti)] = "py"
@@ -561,6 +573,30 @@ def _run_case(acc, case):
                     return
             for k_ in [k_ for k_ in reg if k_[0] == ii]:
                 del reg[k_]
+        # ---- hundreds of objects bound under one name, one after the other (a test suite creating robot after robot)
+        if case.get("rebind_many") and case["owner"] == "direct" and not case.get("sm_owner") and objs[0] is not None:
+            inst = case["instances"][0]
+            for _ in range(530):
+                o_ = cls()
+                setup_tunables(o_, inst["name"], inst["prefix"])
+                objs_extra[:] = objs_extra[-3:] + [o_]
+            objs_extra.append(objs[0])
+            objs[0] = o_
+            acc.ev("hundreds-of-objects-bound-under-one-name")
+            for ti, t in enumerate(tun):
+                v = value_of(t["kind"], 700 + ti)
+                try:
+                    setattr(o_, t["attr"], v)
+                    got = getattr(o_, t["attr"])
+                except Exception as ex:  # noqa
+                    acc.violation("C09/access-raised", f"reading or writing a bound tunable raised {ex!r}", case, {})
+                    return
+                reg[(0, ti)] = v
+                acc.checks += 2
+                if norm(got) != norm(v) or norm(chans[(0, ti)].read()) != norm(v):
+                    acc.violation("C09/rebind-initial-value", f"{topic_path(inst, t)}: the 531st object bound under this name reads {got!r} after writing {v!r} "
+                                  f"(NetworkTables {chans[(0, ti)].read()!r})", case, {})
+                    return
         # ---- instances never share a value: final sweep over every (instance, attribute)
         for (ii, ti), want in reg.items():
             got = getattr(objs[ii], tun[ti]["attr"])
